@@ -798,7 +798,72 @@ def r22(ctx):
         raise AnalysisBroken('C18.R22: no store into m_parts found in addPart')
 
 
+def r23(ctx):
+    ctx.rule('C18.R23', 'a variable of the topic template ends at the first character that is not a letter or an underscore: the '
+             'test in StringReplacer::parse that ends a field name on an "invalid field character" is evaluated from the typed '
+             'AST for every character value and both field forms (%name, %{name}); the characters it lets pass as part of a '
+             'name contain every character of the known names circuit / name / field and nothing but letters and "_" - a '
+             'digit or punctuation taken into the name turns %circuit2 or %name1 into an unknown variable and the topic built '
+             'from such a template can no longer be mapped back to circuit and name', minimum=1)
+    import tinyeval
+    fb = ctx.fb
+    fn = fb.fn('ebusd::StringReplacer::parse')
+    ctx.touch(fn)
+    loops = [l for l in fn.all('CXXForRangeStmt') if fn.key(fn.nodes[l]['range']) == fn.P(0)]
+    if len(loops) != 1:
+        raise AnalysisBroken('C18.R23: the loop over the template characters was not found')
+    lv = fn.nodes[loops[0]]['loopvar']
+    lname = lv.split(':')[-1]
+    inside = set(fn.walk(fn.nodes[loops[0]]['body']))
+    cands = []
+    for i in fn.all('IfStmt'):
+        v = fn.nodes[i]
+        if i not in inside or v.get('else') is not None or v.get('then') is None:
+            continue
+        refs = [fn.nodes[x] for x in fn.walk(v['cond']) if fn.nodes[x]['k'] == 'DeclRefExpr']
+        if not any(r.get('decl') == lv for r in refs):
+            continue
+        if not any((fn.nodes[c].get('callee') or '').endswith('StringReplacer::addPart') for c in fn.walk(v['then']) if fn.nodes[c]['k'] in ('CallExpr', 'CXXMemberCallExpr')):
+            continue
+        state = [r.get('decl') for r in refs if r.get('decl') != lv and r.get('rk') == 'local']
+        cands.append((i, state))
+    if len(cands) != 1 or len(set(cands[0][1])) != 1:
+        raise AnalysisBroken('C18.R23: the test that ends a field name at an invalid character was not recognised')
+    i, state = cands[0]
+    known = fb.globals.get('ebusd::knownFieldNames', {}).get('init')
+    if not known or fb.globals['ebusd::knownFieldNames'].get('file', '').split('/')[-1] != 'stringhelper.cpp':
+        raise AnalysisBroken('C18.R23: the known field names of the string replacer were not found')
+    need = set(''.join(known))
+    import string as _s
+    allowed = set(_s.ascii_letters + '_')
+    acc = None
+    try:
+        for form in (1, 2):
+            a = set()
+            for chv in range(-128, 128):
+                m = tinyeval.Machine(fn, {}, [], max_steps=2000)
+                cc = lambda x: chr(x & 0xff)
+                m.free = {'isalnum': lambda x, *r: int(cc(x).isalnum() and (x & 0xff) < 128), 'isalpha': lambda x, *r: int(cc(x).isalpha() and (x & 0xff) < 128),
+                          'isdigit': lambda x, *r: int(cc(x) in '0123456789'), 'islower': lambda x, *r: int('a' <= cc(x) <= 'z'),
+                          'isupper': lambda x, *r: int('A' <= cc(x) <= 'Z')}
+                m.free.update({'std::' + k: f for k, f in list(m.free.items())})
+                m.locals[lv] = chv
+                m.locals[state[0]] = form
+                if not m.rv(fn.nodes[i]['cond']):
+                    a.add(chv)
+            acc = a if acc is None else (acc | a)
+            missing = sorted(c for c in need if ord(c) not in a)
+            extra = sorted(chr(c & 0xff) if 32 <= c < 127 else '\\x%02x' % (c & 0xff) for c in a if not (0 <= c < 128 and chr(c) in allowed))
+            ok = not missing and not extra
+            ctx.ob('C18.R23', fn, i, ok, 'characters of a field name in the form %s' % ('%name' if form == 1 else '%{name}'),
+                   '%d characters pass as part of a name; all characters of %s among them: %s; nothing but letters and "_": %s%s' % (
+                       len(a), '/'.join(known), not missing, not extra, '' if not extra else ' (also %s)' % ' '.join(extra[:12])))
+    except tinyeval.Unknown as e:
+        raise AnalysisBroken('C18.R23: the field character test is not evaluable (%s)' % e)
+
+
 def run(ctx):
+    r23(ctx)
     r21(ctx)
     r22(ctx)
     r20(ctx)
